@@ -824,6 +824,29 @@ pub fn emit_d4_dead_chain(cnf: &Cnf, x: i32, opts: &Opts) -> Option<(Vec<String>
     lines.push("3 4 0".to_string());
     lines.push(format!("2 {} 0", rp));
     let (ln, rn, _) = emit_d4_offset(&dneg, next);
+    // the check above is on the residual CLAUSES; the compiled live DAG can leave a residual
+    // feature unmentioned (free below a decision), so check the emitted lines as well: every
+    // feature on an edge of the dead part must be on an edge of the live part (or x / implied)
+    fn mentioned(ls: &[String]) -> BTreeSet<u32> {
+        let mut out = BTreeSet::new();
+        for l in ls {
+            let t: Vec<&str> = l.split_whitespace().collect();
+            if t.len() >= 3 && t[0].parse::<i64>().is_ok() {
+                for w in &t[2..t.len() - 1] {
+                    if let Ok(v) = w.parse::<i64>() {
+                        out.insert(v.unsigned_abs() as u32);
+                    }
+                }
+            }
+        }
+        out
+    }
+    let mut live_mentioned = mentioned(&ln);
+    live_mentioned.insert(x.unsigned_abs());
+    live_mentioned.extend(implied.iter().map(|l| l.unsigned_abs()));
+    if mentioned(&lines).iter().any(|v| !live_mentioned.contains(v)) {
+        return None;
+    }
     lines.extend(ln);
     lines.push(format!("1 2 {} 0", x));
     let mut s = format!("1 {} {}", rn, -x);
